@@ -61,6 +61,27 @@ def eligible_helper(prog: Program, h: FuncInfo, _cache: dict = {}) -> bool:
     return ok
 
 
+def _transplantable_closure(outer: ast.FunctionDef, inner: ast.FunctionDef) -> bool:
+    """A closure defined directly in the helper's body (a callback such as the per-file worker handed to executor.map) can move into
+    the caller together with the helper's statements when nothing in it clashes with the substitution of the helper's parameters: it
+    is a plain top-level `def` of the helper, binds no name the helper also binds or takes as a parameter, and defines nothing nested."""
+    if inner not in outer.body or inner.decorator_list:
+        return False
+    a = inner.args
+    own = {x.arg for x in a.posonlyargs + a.args + a.kwonlyargs} | ({a.vararg.arg} if a.vararg else set()) | ({a.kwarg.arg} if a.kwarg else set())
+    own |= _assigned_names(inner.body)
+    oa = outer.args
+    outer_names = {x.arg for x in oa.posonlyargs + oa.args + oa.kwonlyargs} | _assigned_names([st for st in outer.body if st is not inner])
+    if own & outer_names:
+        return False
+    for x in ast.walk(inner):
+        if isinstance(x, (ast.FunctionDef, ast.AsyncFunctionDef, ast.ClassDef, ast.Lambda)) and x is not inner:
+            return False
+        if isinstance(x, (ast.Nonlocal, ast.Global, ast.Yield, ast.YieldFrom, ast.Await)):
+            return False
+    return True
+
+
 def _eligible(prog: Program, h: FuncInfo) -> bool:
     n = h.node
     if not isinstance(n, ast.FunctionDef) or h.parent is not None:
@@ -90,7 +111,9 @@ def _eligible(prog: Program, h: FuncInfo) -> bool:
     for x in ast.walk(n):
         if isinstance(x, (ast.Yield, ast.YieldFrom, ast.Await, ast.Global, ast.Nonlocal, ast.AsyncFor, ast.AsyncWith)):
             return False
-        if isinstance(x, (ast.FunctionDef, ast.AsyncFunctionDef, ast.ClassDef)) and x is not n:
+        if isinstance(x, (ast.AsyncFunctionDef, ast.ClassDef)) and x is not n:
+            return False
+        if isinstance(x, ast.FunctionDef) and x is not n and not _transplantable_closure(n, x):
             return False
         if isinstance(x, ast.Call):
             f = x.func
@@ -145,8 +168,8 @@ def structure(stmts: list[ast.stmt], res: Optional[str]) -> list[ast.stmt]:
             if not out:
                 out.append(ast.copy_location(ast.Pass(), s))
             return out  # rest is unreachable
-        if not _has_return([s]):
-            out.append(s)
+        if isinstance(s, (ast.FunctionDef, ast.AsyncFunctionDef, ast.ClassDef)) or not _has_return([s]):
+            out.append(s)  # (a closure's own returns are its own)
             continue
         if isinstance(s, (ast.For, ast.While)):
             # `for ...: ... return e` + rest  ==  `for ...: ... res = e; break` + `else: rest`   (loop without own breaks)
@@ -307,6 +330,8 @@ def _assigned_names(body) -> set[str]:
                 out.add(x.name)
             elif isinstance(x, (ast.MatchAs, ast.MatchStar)) and x.name:
                 out.add(x.name)
+        if isinstance(s, ast.FunctionDef):
+            out.add(s.name)
     return out
 
 
@@ -320,6 +345,11 @@ class _Subst(ast.NodeTransformer):
         if n.id in self.exprs and isinstance(n.ctx, ast.Load):
             return ast.copy_location(copy.deepcopy(self.exprs[n.id]), n)
         return n
+
+    def visit_FunctionDef(self, n):
+        if n.name in self.renames:
+            n.name = self.renames[n.name]
+        return self.generic_visit(n)
 
     def visit_ExceptHandler(self, n):
         if n.name and n.name in self.renames:
@@ -344,6 +374,7 @@ class Inliner:
         self.counter = 0
         self.log: list[tuple[str, str]] = []  # (caller, helper)
         self.kept_calls: set[str] = set()  # helpers with a call site that was not inlined
+        self.moved_closures: set[str] = set()  # closures of inlined helpers, re-registered under the caller
         self.only_module_level = False
 
     # -- which helper does this call reach
@@ -467,6 +498,15 @@ class Inliner:
         if placeholder is not None:
             back = _Subst({}, {placeholder: res})
             body = [back.visit(s) for s in body]
+        closures = [st for st in body if isinstance(st, ast.FunctionDef)]
+        if closures:
+            if h.module is not r.fn.module:
+                return None  # the closure's free names would resolve in another module
+            for st in closures:
+                fi = FuncInfo(f"{r.fn.qname}.<locals>.{st.name}", r.fn.module, st, r.fn.cls, r.fn)
+                self.prog.functions[fi.qname] = fi
+                old_q = f"{h.qname}.<locals>.{st.name}"
+                self.moved_closures.add(old_q)
         return prelude + body
 
     def expr_form(self, h: FuncInfo) -> Optional[ast.expr]:
@@ -1032,5 +1072,9 @@ def inline_program(prog: Program) -> dict:
     absorbed = inlined_helpers - kept
     for q in absorbed:
         prog.functions[q].absorbed = True
+    for q in inl.moved_closures:
+        owner = q.split(".<locals>.")[0]
+        if owner in absorbed and q in prog.functions:
+            prog.functions[q].absorbed = True
     return {"inlined_call_sites": len(inl.log), "functions_changed": sorted(touched), "helpers": sorted(inlined_helpers), "absorbed": sorted(absorbed),
             "pairs": sorted({(c, h) for c, h in inl.log if not h.startswith("<")}), "int_constants_folded": folded}
